@@ -32,6 +32,8 @@ func main() {
 		cmdSelftest(os.Args[2:])
 	case "bounded":
 		cmdBounded(os.Args[2:])
+	case "list":
+		cmdList(os.Args[2:])
 	default:
 		fmt.Fprintln(os.Stderr, "unknown command", os.Args[1])
 		os.Exit(2)
@@ -310,4 +312,45 @@ func cmdVerify(args []string) {
 	if bad > 0 {
 		os.Exit(1)
 	}
+}
+
+// cmdList: every function of the module with a body, and its contract status (proved | trusted | partial(only) | none).
+func cmdList(args []string) {
+	repo := "/repo"
+	if len(args) > 0 {
+		repo = args[0]
+	}
+	w, err := loadWorld(repo)
+	if err != nil {
+		fmt.Fprintln(os.Stderr, "load:", err)
+		os.Exit(2)
+	}
+	var keys []string
+	for k, fi := range w.Funcs {
+		if fi.Decl != nil && fi.Decl.Body != nil {
+			keys = append(keys, k)
+		}
+	}
+	sort.Strings(keys)
+	counts := map[string]int{}
+	for _, k := range keys {
+		st := "none"
+		if fc := w.CS.Funcs[k]; fc != nil {
+			switch {
+			case fc.Trusted:
+				st = "trusted"
+			case len(fc.Only) > 0:
+				st = "partial"
+			default:
+				st = "proved"
+			}
+		}
+		counts[st]++
+		rn := ""
+		if fi := w.Funcs[k]; fi.Recv != nil {
+			rn = fi.Recv.Name()
+		}
+		fmt.Printf("%-8s %s\t%s\t%s\n", st, k, rn, w.Funcs[k].Sig.String())
+	}
+	fmt.Fprintf(os.Stderr, "%v\n", counts)
 }
